@@ -567,7 +567,14 @@ func (c *Ctx) checkMatchCountedOnAnswer() {
 		c.check(ok && belongsTo(st.Parent(), co), rule, "clientProxyMatchCount is incremented on the answer-received edge only", pos, "", "the match count is incremented on a path that has not received the proxy's answer: polls that time out are published as matches", p.pathString(path)...)
 	}
 	if n == 0 {
-		c.undecided(rule, "increments of clientProxyMatchCount", "-", "none found")
+		c.missingOrMoved(rule, "clientProxyMatchCount is incremented when an answer arrived", co, func(in ssa.Instruction) bool {
+			st, ok := in.(*ssa.Store)
+			if !ok {
+				return false
+			}
+			_, g, okf := fieldOfAddr(st.Addr)
+			return okf && g == f
+		}, "an increment of Metrics.clientProxyMatchCount", "matches are never counted: the published figure stays below the truth")
 	}
 	// the rounded counter with status=matched
 	m := 0
@@ -592,6 +599,13 @@ func (c *Ctx) checkMatchCountedOnAnswer() {
 		}
 	}
 	if m == 0 {
-		c.undecided(rule, "ClientPollTotal{status=matched} increments", "-", "none found")
+		c.missingOrMoved(rule, "ClientPollTotal{status=matched} is incremented when an answer arrived", co, func(in ssa.Instruction) bool {
+			ci, ok := in.(ssa.CallInstruction)
+			if !ok || !strings.HasSuffix(calleeName(ci), "RoundedCounterVec).With") {
+				return false
+			}
+			st, oks := mapLiteralConstValue(callArgs(ci)[1], "status")
+			return oks && st == "matched"
+		}, "an increment of ClientPollTotal{status=matched}", "matches are never counted in the rounded counter")
 	}
 }
